@@ -131,6 +131,64 @@ Proof.
 Qed.
 
 (* ------------------------------------------------------------------------------------ *)
+(* "every a is immediately followed by b": a property of all words of a grammar            *)
+(* ------------------------------------------------------------------------------------ *)
+
+Fixpoint followed (a b : nat) (w : list nat) : bool :=
+  match w with
+  | [] => true
+  | x :: r => (if Nat.eqb x a then match r with y :: _ => Nat.eqb y b | [] => false end else true)
+              && followed a b r
+  end.
+
+Fixpoint followed_form (a b : nat) (f : list symbol) : bool :=
+  match f with
+  | [] => true
+  | X :: r => (match X with
+               | T x => if Nat.eqb x a then match r with T y :: _ => Nat.eqb y b | _ => false end else true
+               | NT _ => true
+               end) && followed_form a b r
+  end.
+
+Definition grammar_followed (a b : nat) (G : grammar) : bool :=
+  forallb (fun p => followed_form a b (snd p)) G.
+
+Lemma followed_app : forall a b w1 w2, followed a b w1 = true -> followed a b w2 = true ->
+  followed a b (w1 ++ w2) = true.
+Proof.
+  induction w1 as [|x r IH]; intros w2 F1 F2; [exact F2|].
+  cbn [followed app] in *. apply andb_true_iff in F1. destruct F1 as [F1 F1'].
+  apply andb_true_iff. split; [|apply IH; assumption].
+  destruct (Nat.eqb x a); [|reflexivity]. destruct r as [|y r']; [discriminate|]. exact F1.
+Qed.
+
+Lemma followed_last : forall a b w, followed a b (w ++ [a]) = false.
+Proof.
+  induction w as [|x r IH]; cbn [app followed].
+  - rewrite Nat.eqb_refl. reflexivity.
+  - rewrite IH. apply andb_false_r.
+Qed.
+
+Lemma derives_tok_inv : forall G y ss w, derives G (T y :: ss) w -> exists w', w = y :: w' /\ derives G ss w'.
+Proof. intros G y ss w D. inversion D; subst. eauto. Qed.
+
+Theorem derives_followed : forall G a b, grammar_followed a b G = true ->
+  forall form w, derives G form w -> followed_form a b form = true -> followed a b w = true.
+Proof.
+  intros G a b GF. induction 1 as [|t ss w D IH|A p rhs ss w1 w2 Hp D1 IH1 D2 IH2]; intro F.
+  - reflexivity.
+  - cbn [followed_form] in F. apply andb_true_iff in F. destruct F as [F1 F2].
+    cbn [followed]. apply andb_true_iff. split; [|apply IH; exact F2].
+    destruct (Nat.eqb t a); [|reflexivity].
+    destruct ss as [|[y|y] ss']; try discriminate.
+    destruct (derives_tok_inv _ _ _ _ D) as [w' [E _]]. subst w. exact F1.
+  - cbn [followed_form] in F. apply followed_app.
+    + apply IH1. unfold grammar_followed in GF. rewrite forallb_forall in GF.
+      exact (GF _ (nth_error_In _ _ Hp)).
+    + apply IH2. exact F.
+Qed.
+
+(* ------------------------------------------------------------------------------------ *)
 (* the invariant                                                                          *)
 (* ------------------------------------------------------------------------------------ *)
 
